@@ -324,9 +324,23 @@ def pointwise(ex, shape0, name, elem, fn_of_index):
     return r
 
 
+def elem1(a, j):
+    """element j of a 1-D array or view"""
+    if isinstance(a, ViewArr):
+        t = a.parent.term
+        for i in a.fixed:
+            t = tm.select(t, i)
+        return tm.select(t, tm.add(j, a.offset) if a.offset is not None else j)
+    return tm.select(a.term, j)
+
+
 def binop(ex, op, a, b, line):
     def f(x, y):
         return ex.binop(op, x, y)
+    if isinstance(a, Arr) and isinstance(b, Arr) and a.ndim == 1 and b.ndim == 1 and (isinstance(a, ViewArr) or isinstance(b, ViewArr)):
+        ex.oblige('bounds', tm.eq(to_term(a.shape[0]), to_term(b.shape[0])), label='broadcast', line=line,
+                  note='elementwise operands have equal length')
+        return pointwise(ex, a.shape[0], 'ew', REAL, lambda j: tm.to_real(f(elem1(a, j), elem1(b, j))))
     if isinstance(a, Arr) and isinstance(b, Arr) and a.ndim == 2 and b.ndim == 2:
         for d in range(2):
             ex.oblige('bounds', tm.eq(to_term(a.shape[d]), to_term(b.shape[d])), label='broadcast', line=line,
